@@ -617,3 +617,4 @@ def run(ctx, led):
     run_rule(led, "V6", "ZIP-ALIGNMENT: weights and variables are paired position by position (shared with C13-F11)", _fz.zip_alignment, ctx)
     from . import kernel as _kernel2
     _kernel2.run_lifecycle(led, ctx, "V")
+    _kernel2.run_bundle(led, ctx, "V")
